@@ -9,4 +9,4 @@ if [ ! -f Makefile.coq ] || ! cmp -s _CoqProject.all .CoqProject.prev; then
   coq_makefile -f _CoqProject.all -o Makefile.coq > /dev/null
   cp _CoqProject.all .CoqProject.prev
 fi
-timeout ${COQ_BUILD_TIMEOUT:-3000} make -f Makefile.coq -j${COQ_JOBS:-16} --no-print-directory "$@"
+timeout ${COQ_BUILD_TIMEOUT:-3000} make -k -f Makefile.coq -j${COQ_JOBS:-16} --no-print-directory "$@"
